@@ -120,6 +120,23 @@ InvMisbehaving == Misbehaving(c)
 InvSurvives == Survives(c)
 InvStore == WellFormed(c.st) /\ (c.alive => MemKnown(c.st) = DbKnown(c.st))
 
+\* C13 ManualRetryGate: retrytower is accepted exactly in the documented states - the retrier of the tower idles, or there
+\* is none and the tower is shown unreachable / with a subscription error - and then the retry manager is told
+Gate(t) == /\ t \in MemKnown(c.st)
+           /\ \/ c.inmap[t] = "idle"
+              \/ c.inmap[t] = "none" /\ Mem(c.st, t).status \in {"unreachable", "subscription_error"}
+InvManualRetryGate ==
+    \A t \in Towers : \A p \in ManualRetry(c, t) :
+       /\ (p[2] = "ok") = Gate(t)
+       /\ (p[2] = "ok") => \E m \in p[1].chan : m.t = t /\ m.k \in {"none", "stale"}
+       /\ (p[2] # "ok") => p[1] = c
+
+\* C14 RegRecorded: every stored registration receipt came from an answer that verified (the other answers of this model
+\* carry expiry 0) and strictly extended the subscription known at the time (no two receipts of a tower with one expiry)
+InvRegRecorded ==
+    /\ \A r \in c.st.db.regs : r.expiry > 0 /\ r.slots > 0
+    /\ \A r1, r2 \in c.st.db.regs : (r1.t = r2.t /\ r1.expiry = r2.expiry) => r1 = r2
+
 \* C13 Delivered: with towers that end up reachable and well-behaved, every tower that is neither abandoned nor
 \* misbehaving (nor left with a subscription the tower refuses to extend) gets everything and is shown reachable
 Settled(t) == \/ ~c.alive
